@@ -13,6 +13,7 @@ import (
 	"encoding/json"
 	"fmt"
 	"math/rand"
+	"os"
 	"sort"
 	"time"
 
@@ -144,8 +145,8 @@ type ChainConfig struct {
 	AllowedClients          []string // 02-client param; nil = default
 	GovVotingPeriod         time.Duration
 	BlockMaxGas             int64
-	Clock                   *Clock `json:"-"` // shared setup clock (optional)
-	ICAAllow                []string          // interchain-accounts host allow list (nil = default "*")
+	Clock                   *Clock   `json:"-"` // shared setup clock (optional)
+	ICAAllow                []string // interchain-accounts host allow list (nil = default "*")
 }
 
 // Chain is one simulated chain running the real application.
@@ -406,6 +407,16 @@ func (c *Chain) Block(t time.Time, txs []*TxSpec) []*TxResult {
 	for i, r := range res.TxResults {
 		tr := &TxResult{Spec: txs[i], Height: h, Code: r.Code, Space: r.Codespace, Log: r.Log, GasUsed: r.GasUsed, Events: r.Events, Data: r.Data}
 		out = append(out, tr)
+		if Trace {
+			// development aid (IBCSIM_TRACE=1): never influences the run
+			lg := r.Log
+			if r.Code == 0 {
+				lg = ""
+			} else if len(lg) > 220 {
+				lg = lg[:220]
+			}
+			fmt.Fprintf(os.Stderr, "  tx %s h=%d %s tag=%d code=%d %s\n", c.ID, h, txs[i].Label, txs[i].Tag, r.Code, lg)
+		}
 		c.Results = append(c.Results, tr)
 		txs[i].Signer.inPool = false
 	}
